@@ -6,6 +6,7 @@ import Preflate.Model.Estimator
 import Preflate.Model.EstimatorFull
 import Preflate.Model.DecodeBytes
 import Preflate.Model.ChainsSafe
+import Preflate.Model.ChainBounds
 namespace Preflate.Driver
 open Preflate
 
@@ -110,5 +111,16 @@ def chkLine (toks : List String) : String :=
           | .error _ => "ok"
       | none => "bad-request"
   | [] => "bad-request"
+
+/-- `policy <code> <limit> <pos> <len>`: the hash-chain update calls the add policy makes for a token of
+    `len` bytes committed at `pos` (`Chains.updateCalls`; `Proofs.policyUpdate_eq_calls`: that is what the
+    model's `policyUpdate` performs). The hash algorithm only has to be "some": id 1. -/
+def policyLine (toks : List String) : String :=
+  match toks.mapM String.toNat? with
+  | some [pol, lim, pos, len] =>
+      let p : Params := { (default : Params) with hashAlg := 1, addPolicy := pol, addLimit := lim }
+      let calls := Chains.updateCalls p pos len
+      "calls " ++ ",".intercalate (calls.map fun (a, b) => s!"{a}:{b}")
+  | _ => "bad-request"
 
 end Preflate.Driver
